@@ -5,7 +5,9 @@
 //!       `AmbientSlot::new()` per round, released by a barrier with seeded skew; writes
 //!       <out_dir>/trace-<k>.ndjson (rounds separated by Reset events).
 //!   c20_slot global <out_file> <children>
-//!       the process-global slot (emit::setup().try_init() / init()): one round per child
+//!       the process-global slots, one round each per child process: the shared slot
+//!       (emit::setup().try_init() / init()) and the internal slot (try_init_internal() /
+//!       init_internal() / AmbientInternalSlot::init): one round per child
 //!       process, concatenated the same way.
 //!   c20_slot global-child <seed>
 //!       one round on emit::runtime::shared_slot(); events on stdout.
@@ -42,6 +44,7 @@ fn seq() -> u64 {
 }
 
 const NTAGS: usize = 3;
+const REJECT_MDL: &str = "vh_slot::reject";
 const MIXED: u64 = 98; // one component answered with two different tags
 const UNOBS: u64 = 99; // component not exercised by the operation
 
@@ -88,9 +91,10 @@ impl Emitter for TEmitter {
     }
 }
 impl Filter for TFilter {
-    fn matches<E: ToEvent>(&self, _: E) -> bool {
+    fn matches<E: ToEvent>(&self, evt: E) -> bool {
         self.0.hit(1);
-        true
+        // unlike the empty filter, a tagged one rejects the marker module
+        evt.to_event().mdl() != &Path::new_raw(REJECT_MDL)
     }
 }
 impl Ctxt for TCtxt {
@@ -176,19 +180,54 @@ struct RoundPlan {
     used: Used,
     inits: Vec<Option<InitPlan>>,
     obs: Vec<Option<ObsPlan>>,
-    global: bool,
+    target: Target,
     go: std::sync::atomic::AtomicBool,
 }
+/// Which slot a round runs on; the initialiser entry points differ per target.
+#[derive(Clone, Copy, PartialEq)]
+enum Target {
+    Fresh,
+    Shared,
+    Internal,
+}
+impl Target {
+    fn label(self) -> &'static str {
+        match self {
+            Target::Fresh => "fresh",
+            Target::Shared => "shared",
+            Target::Internal => "internal",
+        }
+    }
+    /// every public way of initialising this kind of slot
+    fn kinds(self) -> &'static [&'static str] {
+        match self {
+            Target::Fresh => &["try_init_slot", "init_slot", "slot_init"],
+            Target::Shared => &["try_init", "init"],
+            Target::Internal => &["try_init_internal", "init_internal", "internal_slot_init"],
+        }
+    }
+}
+
 #[derive(Clone)]
 enum SlotRef {
     Fresh(Arc<AmbientSlot>),
-    Global,
+    Shared,
+    Internal,
 }
 impl SlotRef {
-    fn get(&self) -> &AmbientSlot {
+    fn is_enabled(&self) -> bool {
         match self {
-            SlotRef::Fresh(s) => s,
-            SlotRef::Global => emit::runtime::shared_slot(),
+            SlotRef::Fresh(s) => s.is_enabled(),
+            SlotRef::Shared => emit::runtime::shared_slot().is_enabled(),
+            SlotRef::Internal => emit::runtime::internal_slot().is_enabled(),
+        }
+    }
+    /// one read of the slot
+    fn rt(&self) -> &emit::runtime::AmbientRuntime<'_> {
+        match self {
+            SlotRef::Fresh(s) => s.get(),
+            SlotRef::Shared => emit::runtime::shared(),
+            SlotRef::Internal => emit::runtime::internal(),
         }
     }
 }
@@ -242,8 +281,8 @@ impl ThreadLog {
 }
 
 fn run_init(plan: &RoundPlan, i: usize, p: &InitPlan, log: &ThreadLog) {
+    use emit::runtime::AssertInternal as AI;
     let tag = Tag { tag: i as u64, used: plan.used.clone() };
-    let slot = plan.slot.get();
     spin(p.skew);
     if p.yield_first {
         std::thread::yield_now();
@@ -256,7 +295,20 @@ fn run_init(plan: &RoundPlan, i: usize, p: &InitPlan, log: &ThreadLog) {
             .with_clock(TClock(tag.clone()))
             .with_rng(TRng(tag.clone()))
     };
+    // the internal slot takes components asserted not to produce diagnostics themselves
+    let setup_internal = || {
+        emit::setup()
+            .emit_to(AI(TEmitter(tag.clone())))
+            .emit_when(AI(TFilter(tag.clone())))
+            .with_ctxt(AI(TCtxt(tag.clone())))
+            .with_clock(AI(TClock(tag.clone())))
+            .with_rng(AI(TRng(tag.clone())))
+    };
     let me = i as u64;
+    let fresh = || match &plan.slot {
+        SlotRef::Fresh(s) => &**s,
+        _ => tool_error("fresh-slot entry point planned for a global slot"),
+    };
     log.call_start(Ev::InitCall(i, p.kind));
     // harness-level signal (not instrumentation): gated observers start right now
     plan.go.store(true, SeqCst);
@@ -264,18 +316,31 @@ fn run_init(plan: &RoundPlan, i: usize, p: &InitPlan, log: &ThreadLog) {
     // specification says which form may panic, and when).
     // (result, the references handed back are to this initialiser's own components)
     let r = std::panic::catch_unwind(std::panic::AssertUnwindSafe(|| match p.kind {
-        "try_init_slot" => {
-            let r = if plan.global { setup().try_init() } else { setup().try_init_slot(slot) };
-            match r {
-                Some(init) => ("some", init.emitter().0.tag == me && init.ctxt().0.tag == me),
-                None => ("nil", true),
-            }
-        }
+        "try_init_slot" => match setup().try_init_slot(fresh()) {
+            Some(init) => ("some", init.emitter().0.tag == me && init.ctxt().0.tag == me),
+            None => ("nil", true),
+        },
         "init_slot" => {
-            let init = if plan.global { setup().init() } else { setup().init_slot(slot) };
+            let init = setup().init_slot(fresh());
             ("ok", init.emitter().0.tag == me && init.ctxt().0.tag == me)
         }
+        "try_init" => match setup().try_init() {
+            Some(init) => ("some", init.emitter().0.tag == me && init.ctxt().0.tag == me),
+            None => ("nil", true),
+        },
         "init" => {
+            let init = setup().init();
+            ("ok", init.emitter().0.tag == me && init.ctxt().0.tag == me)
+        }
+        "try_init_internal" => match setup_internal().try_init_internal() {
+            Some(init) => ("some", init.emitter().0 .0.tag == me && init.ctxt().0 .0.tag == me),
+            None => ("nil", true),
+        },
+        "init_internal" => {
+            let init = setup_internal().init_internal();
+            ("ok", init.emitter().0 .0.tag == me && init.ctxt().0 .0.tag == me)
+        }
+        "slot_init" => {
             let rt = Runtime::build(
                 TEmitter(tag.clone()),
                 TFilter(tag.clone()),
@@ -283,7 +348,7 @@ fn run_init(plan: &RoundPlan, i: usize, p: &InitPlan, log: &ThreadLog) {
                 TClock(tag.clone()),
                 TRng(tag.clone()),
             );
-            match slot.init(rt) {
+            match fresh().init(rt) {
                 Some(rt) => (
                     "some",
                     rt.emitter().0.tag == me
@@ -291,6 +356,26 @@ fn run_init(plan: &RoundPlan, i: usize, p: &InitPlan, log: &ThreadLog) {
                         && rt.ctxt().0.tag == me
                         && rt.clock().0.tag == me
                         && rt.rng().0.tag == me,
+                ),
+                None => ("nil", true),
+            }
+        }
+        "internal_slot_init" => {
+            let rt = Runtime::build(
+                AI(TEmitter(tag.clone())),
+                AI(TFilter(tag.clone())),
+                AI(TCtxt(tag.clone())),
+                AI(TClock(tag.clone())),
+                AI(TRng(tag.clone())),
+            );
+            match emit::runtime::internal_slot().init(rt) {
+                Some(rt) => (
+                    "some",
+                    rt.emitter().0 .0.tag == me
+                        && rt.filter().0 .0.tag == me
+                        && rt.ctxt().0 .0.tag == me
+                        && rt.clock().0 .0.tag == me
+                        && rt.rng().0 .0.tag == me,
                 ),
                 None => ("nil", true),
             }
@@ -311,7 +396,7 @@ const FLUSH_TMO: [(&str, Duration); 5] = [
 ];
 
 fn run_obs(plan: &RoundPlan, o: usize, p: &ObsPlan, log: &ThreadLog) {
-    let slot = plan.slot.get();
+    let slot = &plan.slot;
     if p.gated {
         let mut n = 0u64;
         while !plan.go.load(SeqCst) && n < 50_000_000 {
@@ -322,8 +407,8 @@ fn run_obs(plan: &RoundPlan, o: usize, p: &ObsPlan, log: &ThreadLog) {
     spin(p.skew);
     for (op, pause, via, tmo) in &p.ops {
         spin(*pause);
-        // emit::blocking_flush exists for the global slot only
-        let via = if *op != "flush" { "" } else if plan.global { FLUSH_VIA[*via % 3] } else { FLUSH_VIA[*via % 2] };
+        // emit::blocking_flush exists for the shared slot only
+        let via = if *op != "flush" { "" } else if plan.target == Target::Shared { FLUSH_VIA[*via % 3] } else { FLUSH_VIA[*via % 2] };
         let (tmo_label, timeout) = FLUSH_TMO[*tmo % 5];
         let tmo_label = if *op == "flush" { tmo_label } else { "" };
         clear_seen();
@@ -336,14 +421,14 @@ fn run_obs(plan: &RoundPlan, o: usize, p: &ObsPlan, log: &ThreadLog) {
                 en = slot.is_enabled();
             }
             "emit" => {
-                let rt = if plan.global { emit::runtime::shared() } else { slot.get() };
+                let rt = slot.rt();
                 emit::emit!(rt: rt, "observer {o}");
                 for c in 0..4 {
                     tags[c] = seen(c);
                 }
             }
             "span" => {
-                let rt = slot.get();
+                let rt = slot.rt();
                 let (mut guard, frame) = SpanGuard::new(
                     rt.filter(),
                     rt.ctxt(),
@@ -366,20 +451,28 @@ fn run_obs(plan: &RoundPlan, o: usize, p: &ObsPlan, log: &ThreadLog) {
             "flush" => {
                 fl = match via {
                     // the emitter component of the runtime
-                    "emitter" => slot.get().emitter().blocking_flush(timeout),
+                    "emitter" => slot.rt().emitter().blocking_flush(timeout),
                     // the runtime as an Emitter (what Init / emit::blocking_flush go through)
-                    "runtime" => Emitter::blocking_flush(slot.get(), timeout),
+                    "runtime" => Emitter::blocking_flush(slot.rt(), timeout),
                     _ => emit::blocking_flush(timeout),
                 };
                 tags[0] = seen(0);
             }
             "probe" => {
-                let rt = slot.get();
+                let rt = slot.rt();
                 let evt = emit::Event::new(Path::new_raw("vh_slot"), Template::literal("probe"), Empty, Empty);
                 rt.emitter().emit(&evt);
                 tags[0] = seen(0);
-                let _ = rt.filter().matches(&evt);
-                tags[1] = seen(1);
+                // the filter by its verdict (a tagged filter rejects the marker module, the
+                // empty one accepts everything) and by the tag that answered
+                let rej = emit::Event::new(Path::new_raw(REJECT_MDL), Template::literal("probe"), Empty, Empty);
+                let accepted = rt.filter().matches(&evt);
+                let rejected = !rt.filter().matches(&rej);
+                tags[1] = match (seen(1), accepted, rejected) {
+                    (0, true, false) => 0,
+                    (t, true, true) if t != 0 => t,
+                    _ => MIXED,
+                };
                 tags[2] = rt
                     .ctxt()
                     .with_current(|p| p.get("ctxt_tag").and_then(|v| v.to_string().parse::<u64>().ok()))
@@ -395,7 +488,6 @@ fn run_obs(plan: &RoundPlan, o: usize, p: &ObsPlan, log: &ThreadLog) {
 }
 
 // ------------------------------------------------------------------ plans
-const KINDS: [&str; 3] = ["try_init_slot", "init_slot", "init"];
 const OPS: [&str; 5] = ["is_enabled", "emit", "span", "flush", "probe"];
 
 fn skew(rng: &mut vh_common::Rng) -> u64 {
@@ -408,7 +500,7 @@ fn skew(rng: &mut vh_common::Rng) -> u64 {
     }
 }
 
-fn plan_round(rng: &mut vh_common::Rng, slot: SlotRef, max_obs: u64, global: bool) -> RoundPlan {
+fn plan_round(rng: &mut vh_common::Rng, slot: SlotRef, max_obs: u64, target: Target) -> RoundPlan {
     let n_init = match rng.below(10) {
         0 => 0,
         1 => 1,
@@ -421,12 +513,8 @@ fn plan_round(rng: &mut vh_common::Rng, slot: SlotRef, max_obs: u64, global: boo
         order.swap(k, rng.below(k as u64 + 1) as usize);
     }
     for &i in order.iter().take(n_init) {
-        let kind = if global {
-            // AmbientSlot::init on the global slot is the same code path; keep to Setup
-            KINDS[rng.below(2) as usize]
-        } else {
-            KINDS[rng.below(3) as usize]
-        };
+        let kinds = target.kinds();
+        let kind = kinds[rng.below(kinds.len() as u64) as usize];
         inits[i] = Some(InitPlan { kind, skew: skew(rng), yield_first: rng.below(8) == 0 });
     }
     let mut obs = vec![None; 4];
@@ -455,13 +543,13 @@ fn plan_round(rng: &mut vh_common::Rng, slot: SlotRef, max_obs: u64, global: boo
         let sk = if gated { rng.below(120) } else { skew(rng) };
         obs[o] = Some(ObsPlan { ops, skew: sk, gated });
     }
-    RoundPlan { slot, used: Arc::new(Default::default()), inits, obs, global, go: std::sync::atomic::AtomicBool::new(false) }
+    RoundPlan { slot, used: Arc::new(Default::default()), inits, obs, target, go: std::sync::atomic::AtomicBool::new(false) }
 }
 
-fn write_round(out: &mut impl std::io::Write, n: u64, logs: &mut Vec<Log>, used: &Used) {
+fn write_round(out: &mut impl std::io::Write, n: u64, target: Target, logs: &mut Vec<Log>, used: &Used) {
     let mut all: Vec<(u64, Ev)> = logs.drain(..).flatten().collect();
     all.sort();
-    writeln!(out, r#"{{"e":"Reset","n":{n}}}"#).unwrap();
+    writeln!(out, r#"{{"e":"Reset","n":{n},"slot":"{}"}}"#, target.label()).unwrap();
     for (_, l) in &all {
         writeln!(out, "{}", l.json()).unwrap();
     }
@@ -487,6 +575,7 @@ struct Shared {
 
 /// A round that did not finish within the watchdog time.
 struct Stuck {
+    target: Target,
     round: u64,
     events: Vec<(u64, Ev)>,
     /// (thread, it is inside a call of the code under test, description)
@@ -502,7 +591,7 @@ fn run_rounds(
     rng: &mut vh_common::Rng,
     rounds: u64,
     max_obs: u64,
-    global: bool,
+    target: Target,
     mut sink: impl FnMut(u64, &mut Vec<Log>, &Used),
 ) -> Result<(), Stuck> {
     let shared = Arc::new(Shared {
@@ -563,8 +652,12 @@ fn run_rounds(
     }
     let limit = watchdog();
     for n in 0..rounds {
-        let slot = if global { SlotRef::Global } else { SlotRef::Fresh(Arc::new(AmbientSlot::new())) };
-        let plan = Arc::new(plan_round(rng, slot, max_obs, global));
+        let slot = match target {
+            Target::Fresh => SlotRef::Fresh(Arc::new(AmbientSlot::new())),
+            Target::Shared => SlotRef::Shared,
+            Target::Internal => SlotRef::Internal,
+        };
+        let plan = Arc::new(plan_round(rng, slot, max_obs, target));
         *shared.plan.lock().unwrap() = Some(plan.clone());
         *shared.done.lock().unwrap() = 0;
         shared.start.wait();
@@ -601,7 +694,7 @@ fn run_rounds(
                     threads.push((t, in_call, last.map(|(_, e)| e.json().replace('"', "'")).unwrap_or_default()));
                 }
             }
-            return Err(Stuck { round: n, events, threads });
+            return Err(Stuck { target, round: n, events, threads });
         }
         *shared.plan.lock().unwrap() = None;
         sink(n, &mut logs, &plan.used);
@@ -626,7 +719,7 @@ fn report_stuck(st: Stuck, out: &mut impl std::io::Write) -> ! {
             st.threads.iter().map(|t| t.0).collect::<Vec<_>>()
         ));
     }
-    writeln!(out, r#"{{"e":"Reset","n":{}}}"#, st.round).unwrap();
+    writeln!(out, r#"{{"e":"Reset","n":{},"slot":"{}"}}"#, st.round, st.target.label()).unwrap();
     for (_, e) in &st.events {
         writeln!(out, "{}", e.json()).unwrap();
     }
@@ -650,8 +743,8 @@ fn main() {
             let mut files: Vec<_> = (0..shards)
                 .map(|k| std::io::BufWriter::new(std::fs::File::create(format!("{dir}/trace-{k}.ndjson")).unwrap()))
                 .collect();
-            let r = run_rounds(&mut rng, rounds, max_obs, false, |n, logs, used| {
-                write_round(&mut files[(n / per) as usize], n, logs, used);
+            let r = run_rounds(&mut rng, rounds, max_obs, Target::Fresh, |n, logs, used| {
+                write_round(&mut files[(n / per) as usize], n, Target::Fresh, logs, used);
             });
             if let Err(st) = r {
                 use std::io::Write;
@@ -693,12 +786,16 @@ fn main() {
             let mut rng = vh_common::Rng(seed.wrapping_mul(0x9E3779B97F4A7C15).wrapping_add(0xC20));
             let stdout = std::io::stdout();
             let mut lock = stdout.lock();
-            let r = run_rounds(&mut rng, 1, 3, true, |_, logs, used| {
-                write_round(&mut lock, n, logs, used);
-            });
-            if let Err(mut st) = r {
-                st.round = n;
-                report_stuck(st, &mut lock);
+            // each global slot can be initialised once per process: one round on each
+            for (k, target) in [Target::Shared, Target::Internal].into_iter().enumerate() {
+                let id = 2 * n + k as u64;
+                let r = run_rounds(&mut rng, 1, 3, target, |_, logs, used| {
+                    write_round(&mut lock, id, target, logs, used);
+                });
+                if let Err(mut st) = r {
+                    st.round = id;
+                    report_stuck(st, &mut lock);
+                }
             }
         }
         _ => tool_error("usage: c20_slot rounds <dir> <rounds> <shards> <max_obs> | global <file> <children>"),
